@@ -23,7 +23,7 @@ ENTRIES = [("rln::public::RLN::verify", False), ("rln::public::RLN::verify_rln_p
            ("rln::public::RLN::recover_id_secret", False)]
 
 
-def check_panics(ctx, fb, cfg, fn, rule="R13-1"):
+def check_panics(ctx, fb, cfg, fn, rule="R13-1", skip_callee=None, classify=None):
     it = fb.need(fn)
     ctx.touch(it)
     eng = Engine(fb, inline=opaque_rx(r"ZerokitMerkleTree>::root$"), max_depth=6)
@@ -38,28 +38,55 @@ def check_panics(ctx, fb, cfg, fn, rule="R13-1"):
             if e[0] == "enter":
                 fns.add(e[1])
     todo = [c for f in sorted(fns) for c in fb.closures_of(f)]
+    # repository callees that were not inlined (loops, many branches) are analysed on their own with unconstrained
+    # parameters: whatever they need from their caller is then reported at the callee
+    def opaque_ws(ps):
+        out = []
+        for p in ps:
+            for e in p.trace:
+                if e[0] == "call":
+                    t = fb.lookup(e[1].split("@")[0]) or (fb.lookup(e[4]) if len(e) > 4 and e[4] else None)
+                    if t is not None and t.kind in ("Fn", "AssocFn") and not (skip_callee and skip_callee(t)):
+                        out.append(t)
+        return out
+    todo.extend(opaque_ws(paths))
     seen_c = set()
     while todo:
         c = todo.pop()
-        if c.path in seen_c:
+        if c.path in seen_c or c.path == it.path:
             continue
         seen_c.add(c.path)
         ctx.touch(c)
         e2 = Engine(fb, inline=opaque_rx(r"ZerokitMerkleTree>::root$"), max_depth=6)
-        cps = e2.run(c)
+        try:
+            cps = e2.run(c)
+        except Exception as ex:
+            ctx.fail(rule, "%s|%s|too-complex" % (inst, c.path), "callee %s could not be analysed (%s)" % (c.path, ex), loc(c))
+            continue
         t2, d2, u2 = panics.analyse(cps)
         tot += t2
         done += d2
         for u in u2:
-            u["text"] += " [inside closure %s, parameters unconstrained]" % c.path.split("::")[-2:]
+            u["text"] += " [inside %s %s, parameters unconstrained]" % ("closure" if c.kind == "Closure" else "callee", c.path.split("::")[-2:])
         und += u2
         for p in cps:
             for e in p.trace:
                 if e[0] == "enter":
                     todo.extend(fb.closures_of(e[1]))
+        todo.extend(fb.closures_of(c.path))
+        todo.extend(opaque_ws(cps))
     if tot == 0:
         ctx.fail(rule, inst, "no panic site found on any path: anchor shape not recognised", loc(it))
         return
+    if classify:
+        kept = []
+        for u in und:
+            c = classify(u)
+            if c:
+                ctx.notes.append("%s: %s at %s:%s classified %s" % (inst, u["text"][:80], u["site"][0], u["site"][1], c))
+            else:
+                kept.append(u)
+        und = kept
     for u in und:
         ctx.fail(rule, "%s|%s|%s|%s" % (inst, u["site"][0], u["kind"], u["text"][:90]),
                  "request bytes can crash this entry point: obligation `%s` at %s:%s is not implied by the guards before it (facts: %s)" % (
